@@ -74,11 +74,15 @@ def inject(doc, f):
             b["m"].setdefault("extra", []).append(raw("Query", "Query", "{", '  "q2": 1', "}"))
         elif x in ("ReqBody", "ReqHeaders"):
             sp = b["m"]["req"]
-            sp.setdefault("extra", []).append(raw("Body", "Body any") if x == "ReqBody" else raw("Headers", "Headers", "{", '  "h2": 1', "}"))
+            second = [raw("Body", "Body any"), raw("Body", "Body regex", "/zz+/"), raw("Body", "Body", "{", '  "second": 1', "}"),
+                      raw("Body", "Body empty")][(i + len(d)) % 4]
+            sp.setdefault("extra", []).append(second if x == "ReqBody" else raw("Headers", "Headers", "{", '  "h2": 1', "}"))
         elif x in ("RespBody", "RespHeaders"):
             for r in b["m"]["resps"]:
                 if (x == "RespBody" and r["spec"]["form"] == "child") or (x == "RespHeaders" and r["headers"]):
-                    r["spec"].setdefault("extra", []).append(raw("Body", "Body any") if x == "RespBody" else raw("Headers", "Headers", "{", '  "h2": 1', "}"))
+                    second = [raw("Body", "Body any"), raw("Body", "Body regex", "/zz+/"), raw("Body", "Body", "{", '  "second": 1', "}"),
+                              raw("Body", "Body empty")][(i + len(d)) % 4]
+                    r["spec"].setdefault("extra", []).append(second if x == "RespBody" else raw("Headers", "Headers", "{", '  "h2": 1', "}"))
                     break
         else:
             return None
